@@ -338,6 +338,21 @@ func (st *ServerStream) readerAdd(
 	return nil
 }
 
+// multicastParams returns the multicast destination of a media.
+// It returns false when the multicast writers do not exist anymore
+// because the stream has been closed in the meanwhile.
+func (st *ServerStream) multicastParams(medi *description.Media) (net.IP, int, int, bool) {
+	st.mutex.RLock()
+	defer st.mutex.RUnlock()
+
+	mw := st.medias[medi].multicastWriter
+	if mw == nil {
+		return nil, 0, 0, false
+	}
+
+	return mw.ip, mw.rtpPort, mw.rtcpPort, true
+}
+
 func (st *ServerStream) readerRemove(ss *ServerSession) {
 	st.mutex.Lock()
 	defer st.mutex.Unlock()
